@@ -208,9 +208,11 @@ impl<Wr: Write> Serializer for XmlSerializer<Wr> {
 
     /// Serializes given end element into text.
     fn end_elem(&mut self, name: QualName) -> io::Result<()> {
-        self.namespace_stack.pop();
         self.writer.write_all(b"</")?;
-        self.qual_name(&name)?;
+        // The name was registered by the start tag; registering it again after the scope has
+        // been popped would record a declaration on the parent that was never written.
+        write_qual_name(&mut self.writer, &name)?;
+        self.namespace_stack.pop();
         self.writer.write_all(b">")
     }
 
